@@ -120,9 +120,30 @@ def main(tier):
         st = G.rand_stack(rng, 3)
         sv = rng.choice((0, 1, 3))
         order = exec_flags[:]; rng.shuffle(order)
+        if rng.random() < 0.25:
+            # signature / key ENCODING rules (DERSIG, LOW_S, STRICTENC, NULLFAIL, WITNESS_PUBKEYTYPE) in every combination: crafted signatures
+            # (DER-valid low-S with defined / undefined hash types, high-S, padded DER, garbage, empty) x key shapes; no transaction, so the
+            # check itself fails and only the encoding rules and NULLFAIL decide
+            N_ = 0xFFFFFFFFFFFFFFFFFFFFFFFFFFFFFFFEBAAEDCE6AF48A03BBFD25E8CD0364141
+            def der(r, s_, pad=False):
+                def i(v):
+                    b = v.to_bytes((v.bit_length() + 8) // 8 or 1, "big")
+                    return b"\x02" + bytes([len(b) + (1 if pad else 0)]) + (b"\x00" if pad else b"") + b
+                body = i(r) + i(s_)
+                return b"\x30" + bytes([len(body)]) + body
+            sig = rng.choice([der(1, 1), der(rng.getrandbits(255) | 1, rng.getrandbits(250) | 1), der(1, N_ - 1), der(1, 1, pad=True), b"\x30\x06\x02\x01", b""])
+            if sig: sig += bytes([rng.choice([1, 2, 3, 0x81, 0x83, 0, 4, 5, 0x80, 0x84, 0xff])])
+            key = rng.choice([b"\x02" + bytes(rng.randrange(256) for _ in range(32)), b"\x04" + bytes(rng.randrange(256) for _ in range(64)),
+                              b"\x06" + bytes(rng.randrange(256) for _ in range(64)), bytes(rng.randrange(256) for _ in range(rng.choice([1, 33, 65]))), b""])
+            scr = G.push(sig) + G.push(key) + bytes([G.OP("OP_CHECKSIG"), G.OP("OP_NOT")]) if rng.random() < 0.7 else \
+                  bytes([G.OP("OP_0")]) + G.push(sig) + bytes([G.OP("OP_1")]) + G.push(key) + bytes([G.OP("OP_1"), G.OP("OP_CHECKMULTISIG"), G.OP("OP_NOT")])
+            st = []
+            sv = rng.choice((0, 1))
+            enc = [G.FLAG(n) for n in ("DERSIG", "LOW_S", "STRICTENC", "NULLFAIL", "WITNESS_PUBKEYTYPE", "NULLDUMMY")]
+            rng.shuffle(enc); order = enc + order
         f = 0
         chain = [0]
-        for b in order[:rng.randrange(1, 6)]:
+        for b in order[:rng.randrange(1, 7)]:
             f |= b; chain.append(f)
         key = next(cid)
         for j, fl in enumerate(chain):
